@@ -199,8 +199,8 @@ func init() {
 	add("C06", ruleR14_4, ruleR13_5)
 	add("C07", ruleR13_5)
 	add("C08", ruleR05_5)
-	add("C09", ruleR15_5)
-	add("C13", ruleR13_5)
+	add("C09", ruleR15_5, ruleR09_6)
+	add("C13", ruleR13_5, ruleR09_6)
 	add("C14", ruleR14_7)
 	add("C03", ruleR14_7)
 	add("C16", ruleR13_1)
